@@ -294,6 +294,11 @@ impl DeclareCommand {
                 var.convert_to_indexed_array()?;
             }
 
+            // Refuse to assign to a readonly variable before touching any of its attributes.
+            if initial_value.is_some() && var.is_readonly() {
+                return Err(ErrorKind::ReadonlyVariable.into());
+            }
+
             self.apply_attributes_before_update(var)?;
 
             if let Some(initial_value) = initial_value {
